@@ -68,11 +68,9 @@ Fixpoint json_nodup (j : json) : bool :=
   end.
 
 Lemma json_nodup_arr : forall l, json_nodup (JArr l) = forallb json_nodup l.
-Proof. induction l; simpl; auto. simpl in IHl. rewrite IHl. auto. Qed.
+Proof. reflexivity. Qed.
 Lemma json_nodup_obj : forall m, json_nodup (JObj m) = nodupb (map fst m) && forallb (fun kv => json_nodup (snd kv)) m.
-Proof.
-  intros. simpl. f_equal. induction m; simpl; auto. rewrite IHm. auto.
-Qed.
+Proof. reflexivity. Qed.
 
 Lemma mem_bytes_in : forall x l, mem_bytes x l = true <-> In x l.
 Proof.
@@ -206,15 +204,11 @@ Lemma coercible_j_eq : forall d S j t,
   end.
 Proof.
   intros d S j t. destruct t as [n|t'|t']; destruct j; try reflexivity.
-  - (* named, object *)
-    unfold named_coercible. simpl.
-    destruct (find_type n (s_types S)) as [td|]; auto.
-    destruct (td_kind td); auto.
-    unfold members_ok, absent_ok, oneof_ok.
-    f_equal. f_equal.
-    induction members as [|[k v] r IH]; simpl; auto. rewrite IH. auto.
-  - (* list, array *)
-    simpl. induction items as [|x r IH]; simpl; auto. rewrite IH. auto.
+  unfold named_coercible, members_ok, absent_ok, oneof_ok. simpl.
+  destruct (find_type n (s_types S)) as [td|]; [|reflexivity].
+  destruct (td_kind td); try reflexivity.
+  f_equal. f_equal.
+  induction members as [|[k v] r IH]; simpl; auto. rewrite IH. reflexivity.
 Qed.
 
 Lemma coercible_j_null : forall d S t, coercible_j d S JNull t = negb (ty_nonnull t).
